@@ -12,7 +12,8 @@ from ..facts import ty_str
 from .boollogic import equivalent, implies
 
 LEVEL = 'proof'
-TRUSTED = ['approx 0.5.1: f64 and slice impls of AbsDiffEq/RelativeEq (slice impl compares lengths, then elementwise)']
+TRUSTED = ['approx 0.5.1: f64 and slice impls of AbsDiffEq/RelativeEq (slice impl compares lengths, then elementwise)',
+           'approx 0.5.1: f64::relative_eq(a, b, ..) is true whenever a == b']
 ASSUMPTIONS = []
 EXPLANATION = ('each abs_diff_eq / relative_eq result is shown propositionally equivalent (truth table over its comparison atoms) '
                'to the conjunction over all fields of the ADT of self.f ~ other.f with eps / max_relative passed through; '
@@ -165,6 +166,38 @@ def check(cx):
                                         leq = ('icmp', 'eq', ('len', S), ('len', O))
                                         iff = ('or', ('and', tok, ('ELEMWISE', fld['name'])), ('and', ('not', tok), ('not', ('ELEMWISE', fld['name']))))
                                         links.append(('or', ('not', leq), iff))
+                    if meth == 'relative_eq':
+                        # approx 0.5.1: f64::relative_eq starts with `if self == other { return true }` — equal numbers are
+                        # relatively equal under every tolerance (not so for abs_diff_eq: inf − inf, negative or NaN eps)
+                        ats_ = [t0 for t0 in subterms(R2) if t0[0] == 'approx' and t0[2] == 'f64']
+                        eqs_ = [t0 for t0 in subterms(R2) if t0[0] == 'fcmp' and t0[1] == 'eq']
+                        for e_ in eqs_:
+                            for a_ in ats_:
+                                if (a_[3], a_[4]) in ((e_[2], e_[3]), (e_[3], e_[2])):
+                                    links.append(('or', ('not', e_), a_))
+                        for k, fld in enumerate(fields):
+                            for formula, desc, em in per_field[k]:
+                                if em is None:
+                                    continue
+                                S, O, ety = em
+                                if ety.get('k') != 'float':
+                                    continue
+                                whole_a = ('stream', 'src', ('view', S, ('ic', 0), ('len', S)), ('str', 'ref'))
+                                whole_b = ('stream', 'src', ('view', O, ('ic', 0), ('len', O)), ('str', 'ref'))
+                                for t0 in list(subterms(R2)):
+                                    if t0[0] == 'all' and t0[1] == ('stream', 'zip', whole_a, whole_b):
+                                        i_ = t0[2]
+                                        if t0[3] in (('fcmp', 'eq', ('elem', S, i_, ''), ('elem', O, i_, '')), ('fcmp', 'eq', ('elem', O, i_, ''), ('elem', S, i_, ''))):
+                                            tok = ('ELEMEQ', fld['name'])
+                                            R2 = subst_term(R2, {t0: tok})
+                                            links.append(('or', ('not', tok), ('ELEMWISE', fld['name'])))
+                                # the slice impl is "equal lengths and element-wise"
+                                va = ('view', S, ('ic', 0), ('len', S))
+                                vb = ('view', O, ('ic', 0), ('len', O))
+                                sl_ = atom(meth, '[%s]' % ty_str(ety), va, vb, tols)
+                                if sl_ in set(subterms(R2)):
+                                    both = ('and', ('icmp', 'eq', ('len', S), ('len', O)), ('ELEMWISE', fld['name']))
+                                    links.append(('or', ('and', sl_, both), ('and', ('not', sl_), ('not', both))))
                     ok = False
                     used = None
                     for combo in itertools.product(*[range(len(v)) for v in per_field]) if all(per_field) else []:
